@@ -197,3 +197,71 @@ case(C + "sort_dict", params={"d": D}, returns=List(STR), sorted_axioms=True,
      ensures={"len": "len(result) == len(d)", "keys": "all(k in d for k in result) and all(k in result for k in d)", "strict": "all(result[k] < result[k + 1] for k in range(len(result) - 1))"},
      canaries={"nonempty": "len(result) > 0", "has-a": "'a' in result"},
      gen=lambda rng: {"d": sdict(rng)})
+
+# ---- generator functions: contract = the list of yielded values ----------------------------------------------------------------------------
+_GE = {"even": "all(e % 2 == 0 and e in xs for e in result)", "len": "len(result) <= len(xs)"}
+case(C + "gen_evens", params={"xs": List(INT)}, returns=List(INT), requires=["all(x >= 0 for x in xs)"],
+     ensures=_GE, canaries={"all": "len(result) == len(xs)", "none": "len(result) == 0"},
+     loops={"for x in xs": Loop(index="i", invariants={"even": "all(e % 2 == 0 and e in xs for e in __yield__)", "len": "len(__yield__) <= i"})},
+     gen=lambda rng: {"xs": ints(rng, a=0, b=5)})
+case(C + "gen_pairs", params={"a": INT, "b": List(INT)}, returns=List(INT),
+     ensures={"v": "result == [a] + b + [a + 1]"}, canaries={"short": "result == [a] + b"},
+     gen=lambda rng: {"a": rng.randint(0, 3), "b": ints(rng)})
+case(C + "use_gen", params={"xs": List(INT)}, returns=INT, requires=["all(x >= 0 for x in xs)"],
+     ensures={"bound": "0 <= result and result <= len(xs)"}, canaries={"all": "result == len(xs)", "zero": "result == 0"},
+     loops={"for e in gen_evens(xs)": Loop(index="i", invariants={"n": "n == i"})}, locals={"n": INT},
+     gen=lambda rng: {"xs": ints(rng, a=0, b=5)})
+case(C + "gen_to_set", params={"xs": List(INT)}, returns=Set(INT), requires=["all(x >= 0 for x in xs)"],
+     ensures={"odd": "all(y % 2 == 1 for y in result)"}, canaries={"empty": "result == set()", "even": "all(y % 2 == 0 for y in result)"},
+     gen=lambda rng: {"xs": ints(rng, a=0, b=5)})
+case(C + "gen_to_list", params={"xs": List(INT)}, returns=List(INT), requires=["all(x >= 0 for x in xs)"],
+     ensures=_GE, canaries={"all": "len(result) == len(xs)"},
+     gen=lambda rng: {"xs": ints(rng, a=0, b=5)})
+
+# Python evaluates the generator lazily (it sees what this very extend() has appended): not the comprehension semantics -> refused
+case(C + "extend_lazy", params={"xs": List(INT), "src": List(INT)}, returns=List(INT), modifies=["xs"], expect="unsupported", msg="lazily")
+
+case(C + "or_empty", params={"langs": List(STR)}, returns=INT,
+     ensures={"n": "result == ite(len(langs) == 0, 1, len(langs))"}, canaries={"len": "result == len(langs)"},
+     loops={"for l in langs or ('dflt',)": Loop(index="i", invariants={"n": "n == i"})}, locals={"n": INT},
+     gen=lambda rng: {"langs": rng.sample(["a", "b"], rng.randint(0, 2))})
+
+# ten unrolled iterations with two `continue`s each: the paths of an iteration are joined (3**10 paths otherwise)
+case(C + "unroll_many", params={"d": D}, returns=INT,
+     ensures={"bound": "0 <= result and result <= 10", "a": "implies(all(k not in d for k in ['b', 'c', 'd', 'e', 'f', 'g', 'h', 'i', 'j']), result == ite('a' in d and d['a'] != 0, 1, 0))"},
+     canaries={"zero": "result == 0", "ten": "result == 10"},
+     gen=lambda rng: {"d": {k: rng.randint(0, 1) for k in rng.sample("abcdefghijk", rng.randint(0, 5))}})
+
+# re-binding hint "name := expr": the equality is proved, then the local is re-bound to the closed form
+case(C + "remove_then_len", params={"xs": List(INT), "x": INT}, returns=INT, modifies=["xs"], requires=["len(xs) > 0 and xs[0] == x"],
+     hints={"xs.remove(x)": ["xs := old(xs)[1:]"]},
+     ensures={"n": "result == len(old(xs)) - 1", "rest": "xs == old(xs)[1:]"}, canaries={"same": "xs == old(xs)"},
+     gen=lambda rng: (lambda xs: {"xs": xs, "x": xs[0]})([rng.randint(0, 3)] + ints(rng)))
+case(C + "remove_then_len", name="wrong-hint", params={"xs": List(INT), "x": INT}, returns=INT, modifies=["xs"], requires=["len(xs) > 0 and x in xs"],
+     hints={"xs.remove(x)": ["xs := old(xs)[1:]"]}, must_fail=["assert.hint"],
+     gen=lambda rng: {"xs": [1, 2], "x": 1}, n=2)
+
+# the filter of a comprehension guards the safety obligations of its element expression (KeyError of d[k] under `if k in d`)
+case(C + "filtered_lookup", params={"ds": List(D), "k": STR}, returns=List(INT),
+     ensures={"len": "len(result) <= len(ds)"}, canaries={"all": "len(result) == len(ds)"},
+     gen=lambda rng: {"ds": [sdict(rng) for _ in range(rng.randint(0, 3))], "k": rng.choice(["a", "b"])})
+
+# a call by contract inside a quantifier / comprehension: the result is a function of the bound variable
+case(C + "is_big", params={"x": INT}, returns=BOOL, ensures={"v": "result == (x > 10)"}, canaries={"t": "result"}, gen=lambda rng: {"x": rng.randint(5, 15)})
+case(C + "any_big", params={"xs": List(INT)}, returns=BOOL,
+     ensures={"v": "result == any(x > 10 for x in xs)"}, canaries={"t": "result", "f": "not result"},
+     gen=lambda rng: {"xs": ints(rng, a=5, b=15)})
+case(C + "bigs", params={"xs": List(INT)}, returns=List(INT),
+     ensures={"big": "all(y > 10 for y in result)", "len": "len(result) <= len(xs)"}, canaries={"all": "len(result) == len(xs)", "small": "all(y <= 10 for y in result) and len(result) > 0"},
+     gen=lambda rng: {"xs": ints(rng, a=5, b=15)})
+
+# a generator consumed as a set: the image set, no intermediate list
+case(C + "names_update", params={"seen": Set(INT), "xs": List(INT)}, returns=Set(INT), modifies=["seen"],
+     ensures={"old": "all(y in result for y in old(seen))", "new": "all(implies(x > 0, x + 1 in result) for x in xs)",
+              "only": "all(y in old(seen) or (y - 1 in xs and y - 1 > 0) for y in result)"},
+     canaries={"all": "all(x + 1 in result for x in xs)", "same": "result == old(seen)"},
+     gen=lambda rng: {"seen": rng.sample(range(5), rng.randint(0, 2)), "xs": ints(rng)}, build=lambda d: {"seen": set(d["seen"]), "xs": d["xs"]})
+
+case(C + "replace_all", params={"xs": List(INT), "ys": List(INT)}, returns=INT, modifies=["xs"],
+     ensures={"eq": "xs == ys", "n": "result == len(ys)"}, canaries={"same": "xs == old(xs)"},
+     gen=lambda rng: {"xs": ints(rng), "ys": [7] + ints(rng)})
